@@ -177,7 +177,7 @@ func runMinimise(t *testing.T, emit func(interface{})) {
 // runSweep: for each baseline seed, run fault-free, count the fault-eligible calls, then re-run
 // with exactly one fault at call k for every k and every mode.
 func runSweep(t *testing.T, emit func(interface{})) {
-	cfg := RunConfig{Profile: os.Getenv("VERIF_PROFILE"), Property: os.Getenv("VERIF_PROPERTY"), Variant: os.Getenv("VERIF_VARIANT")}
+	cfg := RunConfig{Profile: os.Getenv("VERIF_PROFILE"), Property: os.Getenv("VERIF_PROPERTY"), Variant: os.Getenv("VERIF_VARIANT"), Sweep: os.Getenv("VERIF_SWEEP_CTRLS")}
 	from, n := envInt("VERIF_FROM", 1), envInt("VERIF_N", 1)
 	shard, shards := envInt("VERIF_SHARD", 0), envInt("VERIF_SHARDS", 1)
 	maxCalls := envInt("VERIF_SWEEP_MAXCALLS", 400)
